@@ -157,13 +157,14 @@ int main(int argc, char** argv) {
 			for (uint64_t idx = un.b; idx < un.e; ++idx) {
 				f.make(idx, c.v2, p); if (idx % 3 == 0) { static const int ext[4] = { 2, 7, 8, 9 }; set_config_block(p, ext[idx % 4]); }   // extreme configuration blocks more often
 				unsigned fprc = (unsigned)(idx % 4);
-				vf::set_current(case_json(c, f.name.c_str(), idx, image, fprc, p, un.b).dump());
+				vf::set_current(case_json(c, f.name.c_str(), idx, image, fprc, p, un.b).dump()); vf::watchdog(heavy ? 180 : 60);
 				std::string d = r.run(p, fprc, R);
 				if (idx == un.b && u < 40) R.sample(case_json(c, f.name.c_str(), idx, image, fprc, p).set("program", "..."), 2);
 				if (!d.empty()) { vf::Violation v; v.key = "c06:codebuf:" + c.name(); v.what = c.name() + " family " + f.name + " #" + std::to_string(idx) + ": " + d; v.replay = case_json(c, f.name.c_str(), idx, image, fprc, p, un.b); R.viol.push_back(v); break; }
 			}
 			if (env::S().ef_overruns) { vf::Violation v; v.key = "c06:overrun"; v.what = "a library block was written past its end (slack canary damaged)"; v.replay = vf::Json::obj().set("kind", "overrun"); R.viol.push_back(v); }
 		}
+		alarm(0);
 		return R;
 	}, true, 3600);
 	vf::Evidence ev; ev.level = "exploration";
